@@ -135,6 +135,14 @@ class C20(Check):
             ops = [{"op": "sendfast", "i": 0, "n": 5, "o": outs[0]}, {"op": "sendfast", "i": 1, "n": 4, "o": outs[1]}, {"op": "pump", "o": outs[2]},
                    {"op": "sendfast", "i": 2, "n": 2, "o": 0}, {"op": "pump", "o": 0}]
             cases.append({"part": "A", "ops": ops})
+        # A, the application closes the worker (once, twice) at every point of a short history; sends and loop passes follow
+        base = [{"op": "send", "i": 0, "n": 5}, {"op": "pump", "o": 1}, {"op": "sendfast", "i": 1, "n": 4, "o": 2}, {"op": "pump", "o": 0}]
+        for cut in range(len(base) + 1):
+            for twice in (False, True):
+                for o1 in range(len(OUTS)):
+                    ops = base[:cut] + [{"op": "close"}] + ([{"op": "pump", "o": 0}, {"op": "close"}] if twice else []) + \
+                          [{"op": "send", "i": 2, "n": 3}, {"op": "pump", "o": o1}, {"op": "sendfast", "i": 3, "n": 2, "o": o1}, {"op": "pump", "o": 0}, {"op": "pump", "o": 0}]
+                    cases.append({"part": "A", "ops": ops})
         # A, one socket call per pass: the IOWorker offers its buffer to the socket ONCE per writable event / send_fast; the
         # outcomes in "more" are what a second, third ... call in the same pass would get — the code as it is never asks, a
         # "drain" loop would (and would mishandle a short write followed by EAGAIN or an error in the same pass)
@@ -265,8 +273,9 @@ class C20(Check):
                     elif r < 0.55: ops.append({"op": "sendfast", "i": k, "n": rng.choice([1, 2, 7, rng.randint(1, 40)]), "o": self._rout(rng)})
                     elif r < 0.83: ops.append({"op": "pump", "o": self._rout(rng)})
                     elif r < 0.85 and rng.random() < 0.5: ops.append({"op": "shutdown"})
+                    elif r < 0.87 and rng.random() < 0.5: ops.append({"op": "close"})
                     else: ops.append({"op": "pumprw", "rx": rng.choice(["data", "data", "eof", "error"]), "o": self._rout(rng)})
-                    if ops[-1]["op"] != "send" and rng.random() < 0.3:          # what further calls in the same pass would get
+                    if ops[-1]["op"] not in ("send", "close", "shutdown") and rng.random() < 0.3:          # what further calls in the same pass would get
                         ops[-1]["more"] = [self._rout(rng) for _ in range(rng.randint(1, 3))]
                 yield {"part": "A", "ferr": rng.choice(FERRS), "aerr": rng.choice(AERRS), "ops": ops + [{"op": "pump", "o": 0}] * 2}
             else:
@@ -377,6 +386,9 @@ class C20(Check):
                     # IOWorker.shutdown(send): "finish writing, then shut the socket down for writing" (OFConnection.close)
                     shut_req.append(len(w.send_buf))
                     w.shutdown()
+                elif op["op"] == "close":
+                    # the application closes the worker (RecocoIOWorker.close): idempotent, reported once, nothing written after it
+                    w.close()
                 elif op["op"] == "sendfast":
                     sock.qsofar[0] += op["n"]
                     sock.script = [self._o(op["o"])] + [self._o(o) for o in op.get("more", [])]
@@ -597,6 +609,7 @@ class C20(Check):
                 elif op["op"] == "sendfast": ops.append(dict(op="sendfast", d=data(op["i"], op["n"]).hex(), **self._o(op["o"])))
                 elif op["op"] == "pumprw": ops.append(dict(op="pumprw", rx=op["rx"], **self._o(op["o"])))
                 elif op["op"] == "shutdown": ops.append({"op": "shutdown"})
+                elif op["op"] == "close": ops.append({"op": "close"})
                 else: ops.append(dict(op="pump", **self._o(op["o"])))
             return {"part": "A", "ops": ops, "guard": self.guard_closed}
         if case["part"] == "M":
